@@ -468,3 +468,12 @@ def s8(ctx):
 
 
 RULES.append(s8)
+
+
+@rule("S9", doc="the symmetry total of the progress measure is a sum of true group orders: Group::count is 1 for the trivial group and otherwise orbit size x count of the stabiliser, with no shortcut (C10.G3)")
+def s9(ctx):
+    from . import c10
+    c10.g3(ctx)
+
+
+RULES.append(s9)
